@@ -279,16 +279,43 @@ def _facts(fi: FuncInfo, cfg, site) -> list[Fact]:
     return out
 
 
+def _eafp_get(fi: FuncInfo, e: ast.AST | None, table: str) -> ast.AST | None:
+    """
+    K when the local `e` is `table.get(K)` spelled with an exception handler: exactly two definitions reach this read, `e = table[K]` as
+    the only statement of a try body and `e = None` in the handler of that try for the KeyError the lookup raises when K is missing.
+    """
+    e = strip_cast(e) if e is not None else None
+    if not isinstance(e, ast.Name):
+        return None
+    r = _reaching(fi, e)
+    if r is None or len(r) != 2:
+        return None
+    for (s1, v1, k1), (s2, v2, k2) in (r, r[::-1]):
+        if k1 is not None or k2 is not None or v1 is None or v2 is None or not _is_none(strip_cast(v2)):
+            continue
+        t, hd = parent(s1), parent(s2)
+        look = strip_cast(v1)
+        if not (isinstance(t, ast.Try) and len(t.body) == 1 and t.body[0] is s1 and isinstance(hd, ast.ExceptHandler) and any(hd is x for x in t.handlers)):
+            continue
+        caught = [chain(x) for x in (hd.type.elts if isinstance(hd.type, ast.Tuple) else [hd.type])] if hd.type is not None else []
+        if not caught or any(c not in ("KeyError", "LookupError") for c in caught) or any(x is not hd and t.handlers.index(x) < t.handlers.index(hd) for x in t.handlers):
+            continue
+        if isinstance(look, ast.Subscript) and isinstance(look.ctx, ast.Load) and chain(look.value) == table and not isinstance(look.slice, ast.Slice):
+            return _expand(fi, look.slice)
+    return None
+
+
 def _membership(fi: FuncInfo, f: Fact, table: str = "self.elements") -> tuple[str, bool] | None:
-    """(key text, is-contained) when fact f decides `key in table` (in / not in / .get(key) is None / truthy .get(key))."""
+    """(key text, is-contained) when fact f decides `key in table` (in / not in / .get(key) is None / truthy .get(key); the `.get` may be
+    spelled as a lookup whose KeyError is caught)."""
     if f.op == "in" and _is_table(_expand(fi, f.right), table):
         return _x(fi, f.left), f.pos
     if f.op == "is" and _is_none(f.right):
-        k = _table_key(_expand(fi, f.left), table)
+        k = _table_key(_expand(fi, f.left), table) or _eafp_get(fi, f.left, table)
         if k is not None:
             return norm(k), not f.pos
     if f.op == "truthy":
-        k = _table_key(_expand(fi, f.left), table)
+        k = _table_key(_expand(fi, f.left), table) or _eafp_get(fi, f.left, table)
         if k is not None:
             return norm(k), f.pos
     return None
@@ -542,8 +569,9 @@ class _Deep:
         if isinstance(f, ast.Call):
             return self._callable_helper(call)
         h = recv = None
-        explicit = closure = False
-        if isinstance(f, ast.Attribute) and isinstance(f.value, ast.Name) and self.cls is not None:
+        explicit = closure = component = foreign = False
+        if isinstance(f, ast.Attribute) and isinstance(f.value, ast.Name) and self.cls is not None and \
+                (f.value.id in ("self", "cls") or self.repo.resolve_class_expr(self.mod, f.value) is not None):
             if f.value.id in ("self", "cls"):
                 h = self.cls.lookup(f.attr)
                 recv = f.value
@@ -552,15 +580,34 @@ class _Deep:
                 if c is not None and (c is self.cls or c in self.cls.mro()):
                     h = c.lookup(f.attr)
                     explicit = True
+        elif isinstance(f, ast.Attribute) and isinstance(f.value, ast.Name) and f.value.id not in self.locals and f.value.id not in self.fi.params():
+            # `_mod._helper(x)` with `from . import _mod`: a private function of another module of the package
+            r = self.repo.resolve_name(self.mod, f.value.id)
+            if isinstance(r, tuple) and r[0] == "module" and r[1] is not None and isinstance(r[1].functions.get(f.attr), FuncInfo):
+                h = r[1].functions[f.attr]
+                foreign = h.module is not self.mod
+        elif isinstance(f, ast.Attribute) and isinstance(f.value, ast.Attribute) and isinstance(f.value.value, ast.Name) and f.value.value.id == "self" \
+                and self.cls is not None and "self" in self.fi.params()[:1] and "self" not in _stored_names(self.fn.body):
+            # `self.<part>.<method>(..)`: the part is an instance of exactly one helper class that exists for this class only
+            comp = self._component(f.value.attr)
+            if comp is not None:
+                h = comp[0].lookup(f.attr)
+                if h is not None and (comp[1] or _is_private(h.name)):
+                    component = True
+                    recv = f.value
+                    foreign = h.module is not self.mod
+                else:
+                    h = None
         elif isinstance(f, ast.Name):
             h = self._closure(f.id)
             if h is not None:
                 closure = True
             else:
                 r = self.repo.resolve_name(self.mod, f.id)
-                if isinstance(r, FuncInfo) and r.module is self.mod and f.id not in _stored_names(self.fn.body) and f.id not in self.fi.params():
+                if isinstance(r, FuncInfo) and r.cls is None and f.id not in _stored_names(self.fn.body) and f.id not in self.fi.params():
                     h = r
-        if h is None or (not closure and not _is_private(h.name)):
+                    foreign = r.module is not self.mod            # a helper that lives in another module: followed there
+        if h is None or (not closure and not component and not _is_private(h.name)):
             return None
         if h.name in self.stop or h.name in getattr(call, "_stk", ()):
             return None
@@ -582,11 +629,91 @@ class _Deep:
             return None
         if any(isinstance(x, ast.Call) and isinstance(x.func, ast.Name) and x.func.id in ("super", "locals", "vars") for s in h.node.body for x in ast.walk(s)):
             return None
+        if component and kind == "classmethod":
+            return None
         if kind in ("static", "function"):
             recv = None
         elif explicit:
             recv = f.value if kind == "classmethod" else None      # Class._m(self, x): the receiver is the first argument
+        if foreign:
+            h = self._ported(h)
+            if h is None:
+                return None
         return h, recv
+
+    def _component(self, attr: str):
+        """
+        (class C, C is private) when `self.<attr>` holds, for the whole life of the object, an instance of exactly C: every store into the
+        attribute is `self.<attr> = C(..)` in a constructor of this class, C has no subclasses, and C is instantiated nowhere else - it is
+        a part of this class that was given a name.  Its methods are then called on a known receiver and can be read in place.
+        """
+        memo = self.__dict__.setdefault("_components", {})
+        if attr in memo:
+            return memo[attr]
+        memo[attr] = None
+        made: list[ast.Call] = []
+        comp = None
+        for c in self.cls.mro():
+            for m in c.methods.values():
+                for st, t in stores(m, "self." + attr):
+                    v = strip_cast(st.value) if isinstance(st, (ast.Assign, ast.AnnAssign)) and st.value is not None else None
+                    if m.name != "__init__" or not isinstance(v, ast.Call) or (isinstance(st, ast.Assign) and len(st.targets) != 1) or t is not (st.targets[0] if isinstance(st, ast.Assign) else st.target):
+                        return None
+                    c2 = self.repo.resolve_class_expr(m.module, v.func)
+                    if c2 is None or (comp is not None and c2 is not comp):
+                        return None
+                    comp = c2
+                    made.append(v)
+        if comp is None or comp.all_subclasses() or not _stable_attr(self.repo, attr) or comp is self.cls or comp in self.cls.mro():
+            return None
+        # instantiated nowhere else (by any name it can be imported under)
+        for m in self.repo.modules.values():
+            for x in ast.walk(m.tree):
+                if isinstance(x, ast.Call) and not any(x is v for v in made) and (chain(x.func) or "").split(".")[-1] == comp.name:
+                    return None
+                if isinstance(x, ast.Name) and x.id == comp.name and isinstance(x.ctx, ast.Load) and m.imports.get(x.id, ("", None))[1] not in (None, comp.name):
+                    return None
+        for m in self.repo.modules.values():
+            if any(v[1] == comp.name and k != comp.name for k, v in m.imports.items()):
+                return None                       # imported under another name: its uses are not tracked
+        base = os.path.basename(comp.module.relpath)
+        private = _is_private(comp.name) or (base.startswith("_") and not base.startswith("__"))
+        memo[attr] = (comp, private)
+        return memo[attr]
+
+    def _ported(self, h: FuncInfo) -> FuncInfo | None:
+        """
+        A helper defined in ANOTHER module, as a function that means the same when read in this module: its own private helpers are
+        inlined where it is defined, and every global name it still mentions denotes the same object in both modules (or is a builtin).
+        """
+        memo = self.__dict__.setdefault("_ports", {})
+        key = id(h.node)
+        if key in memo:
+            return memo[key][1]
+        memo[key] = (h.node, None)
+        import builtins
+        try:
+            hv = _Deep(self.repo, h, stop=tuple(self.stop)).build()
+        except (AnalysisError, RecursionError, _NotExact):
+            return None
+        own = set(hv.params()) | _stored_names(hv.node.body) | {x.id for x in ast.walk(hv.node) if isinstance(x, ast.Name) and isinstance(x.ctx, (ast.Store, ast.Del))} | \
+            {a.arg for x in ast.walk(hv.node) if isinstance(x, ast.Lambda) for a in x.args.args}
+        for x in ast.walk(ast.Module(body=hv.node.body, type_ignores=[])):
+            if not (isinstance(x, ast.Name) and isinstance(x.ctx, ast.Load)) or x.id in own:
+                continue
+            here, there = self.repo.resolve_name(self.mod, x.id), self.repo.resolve_name(h.module, x.id)
+            if here is None and there is None:
+                ih, it = self.mod.imports.get(x.id), h.module.imports.get(x.id)
+                if (ih is None and it is None and x.id not in self.mod.constants and x.id not in h.module.constants and hasattr(builtins, x.id)) or (ih is not None and ih == it):
+                    continue
+                return None
+            same = here is there or (isinstance(here, tuple) and isinstance(there, tuple) and len(here) == len(there) and all(a is b for a, b in zip(here[1:], there[1:])))
+            if not same:
+                return None
+        out = FuncInfo(h.name, h.qualname, hv.node, h.module, h.cls)
+        self.opaque.extend(getattr(hv, "opaque", []))
+        memo[key] = (h.node, out)
+        return out
 
     @staticmethod
     def _kwarg_passthrough(h: FuncInfo) -> bool:
@@ -605,7 +732,10 @@ class _Deep:
         ok_names = set(h.params()) | {k for k, v in h.module.imports.items() if v[1] is None}
         for x in ast.walk(body[0].value):
             if isinstance(x, ast.Name) and x.id not in ok_names:
-                return False
+                # a module constant (literal or derived number / text, bound once at import time) is the same at every call
+                v = _konst(self.repo, h.module, x, None, frozenset(h.params())) if isinstance(x.ctx, ast.Load) else _NOCONST
+                if v is _NOCONST or not isinstance(v, (int, str, bytes)):
+                    return False
             if isinstance(x, (ast.Await, ast.Yield, ast.YieldFrom, ast.NamedExpr, ast.Lambda, *_COMPS)):
                 return False
             if isinstance(x, ast.Call) and not ((chain(x.func) or "") in ("struct.Struct", "str", "int", "len") or
@@ -3269,6 +3399,26 @@ def _inside(node: ast.AST, root: ast.AST) -> bool:
     return node is root or any(a is root for a in ancestors(node))
 
 
+def _names_loop_var(fi: FuncInfo, cfg, loop, target: ast.AST, v: ast.AST | None, c: ast.AST) -> bool:
+    """`v` is a second name of the loop variable in the iteration that evaluates `c`: its only definition is `v = <target>` inside the loop
+    and every path from the loop head to `c` passes it (so it never holds the element of an earlier iteration)."""
+    v = strip_cast(v) if v is not None else None
+    if loop is None or not isinstance(v, ast.Name) or not isinstance(target, ast.Name) or is_param(fi, v.id):
+        return False
+    ds = local_defs(fi, v.id)
+    if len(ds) != 1 or ds[0][1] is None or ds[0][2] is not None or not isinstance(ds[0][0], (ast.Assign, ast.AnnAssign)) or norm(strip_cast(ds[0][1])) != target.id or not _inside(ds[0][0], loop):
+        return False
+    if len(local_defs(fi, target.id)) != 1:
+        return False
+    dn = cfg.nodes_for(ds[0][0])
+    cn = cfg.nodes_for(c)
+    for ln in cfg.nodes_for(loop):
+        pre = cfg.reach([w for w, lab in ln.succ if lab is True], cut_nodes=dn, follow_exc=False)
+        if any(x in pre for x in cn):
+            return False
+    return bool(dn) and bool(cn)
+
+
 def rule_wake_all(ctx: Ctx) -> None:
     fi, entry = _gather(ctx)
     cfg = ctx.cfg(fi)
@@ -3323,7 +3473,7 @@ def rule_wake_all(ctx: Ctx) -> None:
             ok = False                      # nothing but the token may be passed (no `already verified` shortcuts)
         loop, gen = _loop_of(c, fi.node)
         target = gen.target if gen is not None else loop.target if loop is not None else None
-        if target is None or norm(target) != norm(v):
+        if target is None or (norm(target) != norm(v) and not _names_loop_var(fi, cfg, loop if gen is None else None, target, v, c)):
             if any(isinstance(a, ast.While) for a in ancestors(c)):
                 raise AnalysisError("undecided: waiting children are re-offered from a while-loop in gather_token's wake-up")
             ok = False                      # a single variable: at most one child is re-offered
@@ -3627,6 +3777,13 @@ def _is_success(value: ast.AST | None) -> bool:
     """a returned value that is not an obvious failure (None / False / empty literal)"""
     if value is None:
         return False
+    if isinstance(value, ast.Call) and isinstance(value.func, ast.Name) and value.func.id == "bool" and len(value.args) == 1 and not value.keywords:
+        return _is_success(value.args[0])           # bool(x) is a failure verdict exactly when x is one
+    if isinstance(value, ast.Call) and isinstance(value.func, ast.Name) and value.func.id in ("list", "tuple", "dict", "set", "frozenset", "bool", "bytes", "str") \
+            and not value.args and not value.keywords:
+        return False                                 # list() / dict() ...: the empty value
+    if isinstance(value, ast.IfExp):
+        return _is_success(value.body) or _is_success(value.orelse)
     if isinstance(value, ast.Constant):
         return bool(value.value)
     if isinstance(value, (ast.List, ast.Tuple, ast.Set)):
@@ -3642,6 +3799,184 @@ def _walk_to_root(ctx: Ctx, f2: FuncInfo, name: str) -> None:
     ok = bool(results) and all(a and b for a, b in results)
     ctx.check(ok, "wire-chunks", f2, f2.node, f"{name}: each step's signature is checked; the walk ends only at the genesis hash",
               f"{name} accepts a path without checking every signature or without reaching the genesis")
+
+
+def _digest_sizes() -> dict[str, int]:
+    import hashlib
+    out = {}
+    for name in hashlib.algorithms_guaranteed:
+        if not name.startswith("shake"):
+            try:
+                out[name] = hashlib.new(name).digest_size          # a documented constant of the standard library
+            except (ValueError, TypeError):
+                pass
+    return out
+
+
+_DIGEST_SIZES = _digest_sizes()
+
+
+def _bound_once(m, value: ast.AST) -> bool:
+    """the module-level name defined by `value` is bound exactly once in its module (no second assignment, no `global` rebinding)"""
+    st = parent(value)
+    names = [t.id for t in (st.targets if isinstance(st, ast.Assign) else [st.target] if isinstance(st, ast.AnnAssign) else []) if isinstance(t, ast.Name)]
+    if len(names) != 1:
+        return False
+    name = names[0]
+    stores_ = sum(1 for x in ast.walk(m.tree) if isinstance(x, ast.Name) and x.id == name and isinstance(x.ctx, (ast.Store, ast.Del)))
+    rebinds = any(isinstance(x, (ast.Global, ast.Nonlocal)) and name in x.names for x in ast.walk(m.tree))
+    return stores_ == 1 and not rebinds
+
+
+def _konst(repo, m, e: ast.AST | None, cls=None, shadow: frozenset = frozenset(), depth: int = 0):
+    """
+    The value of a constant expression, also when it is DERIVED instead of written as a literal: module / class constants, arithmetic,
+    `struct.calcsize(F)`, `struct.Struct(F).size`, `len(C)`, `hashlib.<algo>().digest_size`, f-strings of constants.  NOCONST when unknown;
+    names in `shadow` are locals of the function the expression stands in and are never read as module constants.
+    """
+    if e is None or depth > 12:
+        return _NOCONST
+    v = const_value(e)
+    if v is not _NOCONST:
+        return v
+    again = lambda x, mm=m, cc=cls, sh=shadow: _konst(repo, mm, x, cc, sh, depth + 1)  # noqa: E731
+
+    def hashlib_name(f: ast.AST) -> str | None:
+        c = chain(f) or ""
+        if c.startswith("hashlib.") and c.count(".") == 1:
+            return c.split(".")[1]
+        if isinstance(f, ast.Name) and f.id not in shadow and m.imports.get(f.id, ("", None))[0] == "hashlib":
+            return m.imports[f.id][1]
+        return None
+
+    def struct_fn(f: ast.AST, name: str) -> bool:
+        c = chain(f) or ""
+        return c == "struct." + name or (isinstance(f, ast.Name) and f.id not in shadow and m.imports.get(f.id, ("", None)) == ("struct", name))
+
+    if isinstance(e, ast.Name):
+        if e.id in shadow:
+            return _NOCONST
+        r = repo.resolve_name(m, e.id)
+        if isinstance(r, tuple) and r[0] == "const" and _bound_once(r[1], r[2]):
+            return _konst(repo, r[1], r[2], None, frozenset(), depth + 1)
+        return _NOCONST
+    if isinstance(e, ast.Attribute):
+        base = e.value
+        if e.attr in ("digest_size", "size"):
+            for _ in range(3):                              # a module constant holding the hash / layout object
+                if isinstance(base, ast.Name) and base.id not in shadow:
+                    r = repo.resolve_name(m, base.id)
+                    if isinstance(r, tuple) and r[0] == "const" and isinstance(r[2], ast.Call) and _bound_once(r[1], r[2]):
+                        return _konst(repo, r[1], ast.copy_location(ast.Attribute(value=r[2], attr=e.attr, ctx=ast.Load()), e), None, frozenset(), depth + 1)
+                break
+            if isinstance(base, ast.Call) and e.attr == "digest_size":
+                name = hashlib_name(base.func)
+                if name is None and chain(base.func) == "hashlib.new" and base.args:
+                    name = again(base.args[0])
+                return _DIGEST_SIZES.get(name, _NOCONST) if isinstance(name, str) else _NOCONST
+            if isinstance(base, ast.Call) and e.attr == "size" and struct_fn(base.func, "Struct") and len(base.args) == 1 and not base.keywords:
+                fmt = again(base.args[0])
+                if isinstance(fmt, (str, bytes)):
+                    try:
+                        return struct.calcsize(fmt)
+                    except struct.error:
+                        return _NOCONST
+                return _NOCONST
+        c = None
+        if isinstance(base, ast.Name) and base.id in ("self", "cls") and cls is not None:
+            c = cls
+        elif not (isinstance(base, ast.Name) and base.id in shadow):
+            c = repo.resolve_class_expr(m, base)
+        if c is not None:
+            a = c.lookup_attr(e.attr)
+            if a is not None:
+                owner = next(k for k in c.mro() if e.attr in k.attrs)
+                return _konst(repo, owner.module, a, owner, frozenset(), depth + 1)
+        return _NOCONST
+    if isinstance(e, ast.Call) and not e.keywords and len(e.args) == 1 and not isinstance(e.args[0], ast.Starred):
+        if struct_fn(e.func, "calcsize"):
+            fmt = again(e.args[0])
+            if isinstance(fmt, (str, bytes)):
+                try:
+                    return struct.calcsize(fmt)
+                except struct.error:
+                    return _NOCONST
+            return _NOCONST
+        if isinstance(e.func, ast.Name) and e.func.id == "len" and "len" not in shadow:
+            x = again(e.args[0])
+            return len(x) if isinstance(x, (str, bytes, tuple)) else _NOCONST
+        return _NOCONST
+    if isinstance(e, ast.BinOp):
+        l, r = again(e.left), again(e.right)
+        if l is _NOCONST or r is _NOCONST or isinstance(l, bool) or isinstance(r, bool):
+            return _NOCONST
+        try:
+            if isinstance(e.op, ast.Add):
+                return l + r
+            if isinstance(e.op, ast.Sub):
+                return l - r
+            if isinstance(e.op, ast.Mult) and (isinstance(l, int) or isinstance(r, int)) and (not isinstance(l, int) or abs(l) < 4096) and (not isinstance(r, int) or abs(r) < 4096):
+                return l * r
+            if isinstance(e.op, ast.FloorDiv) and isinstance(l, int) and isinstance(r, int) and r:
+                return l // r
+            if isinstance(e.op, ast.LShift) and isinstance(l, int) and isinstance(r, int) and 0 <= r < 64:
+                return l << r
+        except Exception:  # noqa: BLE001
+            return _NOCONST
+        return _NOCONST
+    if isinstance(e, ast.JoinedStr):
+        parts = []
+        for x in e.values:
+            if isinstance(x, ast.Constant) and isinstance(x.value, str):
+                parts.append(x.value)
+            elif isinstance(x, ast.FormattedValue) and x.format_spec is None and x.conversion == -1:
+                v = again(x.value)
+                if isinstance(v, bool) or not isinstance(v, (int, str)):
+                    return _NOCONST
+                parts.append(str(v))
+            else:
+                return _NOCONST
+        return "".join(parts)
+    return _NOCONST
+
+
+def _fold_derived(repo, fi: FuncInfo, e: ast.AST | None) -> ast.AST | None:
+    """copy of e in which every sub-expression that is a (derived) int / str / bytes constant is written as the literal it evaluates to;
+    constant interpolations of an f-string become part of its text"""
+    if e is None:
+        return None
+    shadow = frozenset(set(fi.params()) | {x.id for x in ast.walk(fi.node) if isinstance(x, ast.Name) and isinstance(x.ctx, (ast.Store, ast.Del))})
+
+    def lit(x):
+        v = _konst(repo, fi.module, x, fi.cls, shadow)
+        return v if v is not _NOCONST and not isinstance(v, bool) and isinstance(v, (int, str, bytes)) else _NOCONST
+
+    class F(ast.NodeTransformer):
+        def visit(self, n):
+            if isinstance(n, (ast.Name, ast.Attribute, ast.Call, ast.BinOp)) and not isinstance(getattr(n, "ctx", None), (ast.Store, ast.Del)):
+                v = lit(n)
+                if v is not _NOCONST:
+                    return ast.copy_location(ast.Constant(v), n)
+            return super().visit(n)
+
+        def visit_JoinedStr(self, n):  # noqa: N802
+            vals: list = []
+            for x in n.values:
+                if isinstance(x, ast.FormattedValue) and x.format_spec is None and x.conversion == -1:
+                    v = lit(x.value)
+                    if v is not _NOCONST and isinstance(v, (int, str)):
+                        x = ast.copy_location(ast.Constant(str(v)), x)
+                    else:
+                        x.value = self.visit(x.value)
+                if isinstance(x, ast.Constant) and vals and isinstance(vals[-1], ast.Constant):
+                    vals[-1] = ast.copy_location(ast.Constant(vals[-1].value + x.value), vals[-1])
+                else:
+                    vals.append(x)
+            if len(vals) == 1 and isinstance(vals[0], ast.Constant):
+                return ast.copy_location(vals[0], n)
+            n.values = vals
+            return n
+    return ast.fix_missing_locations(F().visit(_cl(e)))
 
 
 def _format_parts(e: ast.AST | None) -> tuple[str, str, str] | None:
@@ -3724,7 +4059,7 @@ def _layout_formats(tu: FuncInfo, e: ast.AST | None, key: str, depth: int = 4) -
     return out
 
 
-def _token_layout(tu: FuncInfo, tparams: list[str]) -> int | None:
+def _token_layout(tu: FuncInfo, tparams: list[str], repo=None) -> int | None:
     """size of the constant part of the struct format Token.unserialize reads at (data, offset): `<prefix>{signature length}s`"""
     key = f"{tparams[1]}.get_signature_length()"
     for c in calls(tu):
@@ -3740,7 +4075,7 @@ def _token_layout(tu: FuncInfo, tparams: list[str]) -> int | None:
             continue                         # a layout object that was not built for this key (e.g. cached on the class, whatever the key)
         sizes = set()
         for fmt in fmts:
-            parts = _format_parts(fmt)
+            parts = _format_parts(_fold_derived(repo, tu, fmt) if repo is not None else fmt)
             if parts is None or parts[2] != "s" or parts[1] != key:
                 sizes.add(None)
                 continue
@@ -3794,7 +4129,7 @@ def rule_wire(ctx: Ctx) -> None:
     tu = _view(ctx, repo.method("Token", "unserialize", TK))
     tparams = [p for p in tu.params() if p != "cls"]          # data, public_key, offset
     # struct format of one token: constant prefix + `{signature length}s`
-    fixed = _token_layout(tu, tparams) if len(tparams) >= 3 else None
+    fixed = _token_layout(tu, tparams, repo) if len(tparams) >= 3 else None
     g = [c for c in calls(up, "self.gather_token")]
     loop, gen = _loop_of(g[0], up.node) if len(g) == 1 else (None, None)
     wloop = None
@@ -3843,10 +4178,22 @@ def rule_wire(ctx: Ctx) -> None:
                                 "which offsets it yields is not derived")
     size_ok = False
     if isinstance(step, ast.BinOp) and isinstance(step.op, ast.Add):
-        consts = [repo.resolve_const(up.module, x, up.cls) for x in (step.left, step.right)]
+        # a sum of constant terms (literal or derived: calcsize, Struct.size, len, digest_size, products of those) and ONE signature length
+        terms: list[ast.AST] = []
+
+        def flat(x: ast.AST) -> None:
+            x = strip_cast(x)
+            if isinstance(x, ast.BinOp) and isinstance(x.op, ast.Add):
+                flat(x.left)
+                flat(x.right)
+            else:
+                terms.append(x)
+        flat(step)
+        shadow = frozenset(set(up.params()) | {x.id for x in ast.walk(up.node) if isinstance(x, ast.Name) and isinstance(x.ctx, (ast.Store, ast.Del))})
+        sig = [x for x in terms if norm(x) == "self.public_key.get_signature_length()"]
+        consts = [_konst(repo, up.module, x, up.cls, shadow) for x in terms if norm(x) != "self.public_key.get_signature_length()"]
         ints = [v for v in consts if isinstance(v, int) and not isinstance(v, bool)]
-        sig = [x for x in (step.left, step.right) if norm(x) == "self.public_key.get_signature_length()"]
-        size_ok = len(ints) == 1 and len(sig) == 1 and fixed is not None and ints[0] == fixed
+        size_ok = len(ints) == len(consts) and bool(ints) and len(sig) == 1 and fixed is not None and sum(ints) == fixed
     ctx.check(size_ok, "wire-chunks", up, up.node, "chunk size 64 + sig_len == size of >32s32s{sig_len}s", "wire chunk size and token struct format disagree")
     ok = loop is not None and step is not None
     if ok:
